@@ -17,13 +17,53 @@ class AnalysisError(Exception):
 PKG = 'hotxlfp'
 
 
+class _EraseAnnotations(ast.NodeTransformer):
+    """Type annotations carry no run-time meaning for the properties (function annotations are evaluated once at
+    definition time, variable annotations in function bodies never): parameters and returns lose theirs, an annotated
+    assignment becomes the plain assignment (the annotation is kept on ``_annotation``), a bare local declaration becomes
+    ``pass``.  Bare declarations in class bodies stay: they are the fields of NamedTuple / dataclass records."""
+
+    def __init__(self):
+        self.in_class = []
+
+    def visit_ClassDef(self, node):
+        self.in_class.append(True)
+        self.generic_visit(node)
+        self.in_class.pop()
+        return node
+
+    def _func(self, node):
+        self.in_class.append(False)
+        for a in node.args.posonlyargs + node.args.args + node.args.kwonlyargs + [node.args.vararg, node.args.kwarg]:
+            if a is not None:
+                a._annotation = a.annotation      # kept aside: functools.singledispatch registers by it
+                a.annotation = None
+        node.returns = None
+        self.generic_visit(node)
+        self.in_class.pop()
+        return node
+
+    visit_FunctionDef = _func
+    visit_AsyncFunctionDef = _func
+
+    def visit_AnnAssign(self, node):
+        self.generic_visit(node)
+        if node.value is not None:
+            new = ast.copy_location(ast.Assign(targets=[node.target], value=node.value, type_comment=None), node)
+            new._annotation = node.annotation
+            return new
+        if self.in_class and self.in_class[-1]:
+            return node
+        return ast.copy_location(ast.Pass(), node)
+
+
 class Module(object):
     def __init__(self, name, path, relpath, source):
         self.name = name            # dotted, e.g. hotxlfp.formulas.utils
         self.path = path
         self.relpath = relpath      # relative to repo root
         self.source = source
-        self.tree = ast.parse(source, filename=path)
+        self.tree = ast.fix_missing_locations(_EraseAnnotations().visit(ast.parse(source, filename=path)))
         self.is_pkg = os.path.basename(path) == '__init__.py'
         self.imports = {}           # local alias -> ('module', dotted) | ('attr', dotted_module, attr)
         self.functions = {}         # qualname -> FunctionDef / Lambda assigned at module level
